@@ -4,5 +4,6 @@ CONSTANTS
   Alphabet = {"{", "}", ":", "0", "1", "a", "x", "?", "$", ".", "*", "<", "+", "#", " ", "_", "U2", "U3"}
   EmitCases = TRUE
 INVARIANTS
+  P_C18_Progress
   AllWithAgree
 CHECK_DEADLOCK FALSE
